@@ -11,9 +11,9 @@ ID = 'C08'
 LEVEL = 'exploration'
 RULE = ('Hypothesis-generated scripts biased to the cache-writing paths (WRITE_CACHE, POP0, POP1, TRY/EXCEPT, SIGN, '
         'SIGN_STACK, DERIVE_SCALAR, DERIVE_POINT, both MAKE_ADAPTER ops, DECRYPT_ADAPTER_SIG) and to READ_CACHE_STACK / '
-        'GET_VALUE, with key operands spelling every protected name in every encoding (utf-8, NUL-padded, upper-case, '
+        'GET_VALUE and to the readers of the embedder entries with their operands in place (GET_MESSAGE, CHECK_SIG, CHECK_TEMPLATE(_VERIFY) with a template per flagged field, CHECK_TIMESTAMP(_VERIFY), CHECK_EPOCH), with key operands spelling every protected name in every encoding (utf-8, NUL-padded, upper-case, '
         'as ints), nested in all constructs, plus byte soup; initial caches = sigfield subsets + timestamp + 0-3 other '
-        'str keys with bytes / bytearray / int / str / float / list values (sigfields are bytearrays in 1 of 8 draws); plus '
+        'str keys with bytes / bytearray / int / str / float / list values; timestamp absent, float, str, bytes, None, bool or list in 1 of 6 caches (sigfields are bytearrays in 1 of 8 draws); plus '
         'a scale family: 1 .. 5000 writes to distinct keys (counts around 256 / 512 / 1024) x 4 key styles x 4 caches. Oracle: a recording dict flags any mutation whose key '
         'is not bytes, at any step incl. failed runs; afterwards '
         'every embedder entry equals its deep copy (value and type), also in the cache returned by run_script; '
@@ -187,6 +187,7 @@ def I(name, *ops):
 
 
 SEED = bytes(range(32))
+VK = bytes.fromhex('03a107bff3ce10be1d70dd18e74bc09967e4d6309ba50d5f1ddc8664125531b8')      # RFC 8032 public key of SEED
 
 
 @st.composite
@@ -211,7 +212,7 @@ def key_bytes(draw, names=None):
 def cache_instr(draw, names=None):
     k = draw(st.sampled_from(['wc', 'wc', 'wc', 'pop0', 'pop1', 'rcs', 'rcsz', 'val', 'val', 'val', 'rc', 'rcz', 'sign',
                               'signstack', 'dscalar', 'dpoint', 'masu', 'masv', 'das', 'try', 'msg', 'plain', 'push', 'ret',
-                              'setflag']))
+                              'setflag', 'ctpl', 'ctpl', 'cts', 'cts', 'cep', 'csig']))
     key = draw(key_bytes(names))
     if k == 'wc':
         return [['push', b'v1'], ['push', b'v2'], I('OP_WRITE_CACHE', key, draw(st.integers(0, 2)))]
@@ -249,6 +250,19 @@ def cache_instr(draw, names=None):
         return [['try', [I('OP_FALSE'), I('OP_VERIFY')], draw(st.sampled_from([[], [I('OP_READ_CACHE', b'E')]]))]]
     if k == 'msg':
         return [I('OP_GET_MESSAGE', draw(gen.u8))]
+    # the instructions that READ the embedder's entries (sigfields, timestamp) with their operands in place
+    if k == 'ctpl':
+        f = draw(st.one_of(st.sampled_from([1, 2, 3, 0x80, 0x81, 0xff]), gen.u8))
+        return ([['push', draw(st.sampled_from([b'a', b'', b'msg']))] for _ in range(bin(f).count('1'))] +
+                [I(draw(st.sampled_from(['OP_CHECK_TEMPLATE', 'OP_CHECK_TEMPLATE', 'OP_CHECK_TEMPLATE_VERIFY'])), f)])
+    if k == 'cts':
+        c = draw(st.sampled_from([0, 1, 1_700_000_000, 1_700_000_001, 2 ** 40]))
+        return [['push', c.to_bytes(max(1, (c.bit_length() + 7) // 8), 'big')],
+                I(draw(st.sampled_from(['OP_CHECK_TIMESTAMP', 'OP_CHECK_TIMESTAMP', 'OP_CHECK_TIMESTAMP_VERIFY'])))]
+    if k == 'cep':
+        return [['push', (1_700_000_000).to_bytes(4, 'big')], I(draw(st.sampled_from(['OP_CHECK_EPOCH', 'OP_CHECK_EPOCH_VERIFY'])))]
+    if k == 'csig':
+        return [['push', b'\x05' * 64], ['push', VK], I('OP_CHECK_SIG', draw(st.sampled_from([0, 0xff])))]
     if k == 'ret':
         return [I('OP_RETURN')]
     if k == 'setflag':
@@ -307,6 +321,12 @@ def emb_cache(draw):
                 # the embedder's own mutable buffer: concatenation and hashing accept it like bytes
                 c['sigfield%d' % i] = bytearray(c['sigfield%d' % i])
     c['timestamp'] = draw(st.one_of(st.just(1_700_000_000), st.integers(0, 2 ** 40)))
+    r = draw(st.integers(0, 11))
+    if r == 0:
+        # an embedder value of another type (the time instructions refuse it; it stays what it is)
+        c['timestamp'] = draw(st.sampled_from([1_700_000_000.75, -0.5, 1_700_000_000.0, '1700000000', b'\x65\x53\xf1\x00', None, True, [1_700_000_000]]))
+    elif r == 1:
+        del c['timestamp']
     for _ in range(draw(st.integers(0, 3))):
         c[draw(st.sampled_from(['E', 'P', 'x', 'IR', 'sa', 'custom', 'ünï', 'X', 's', 'returned', 'returned']))] = draw(VALUES)
     return c
